@@ -2,12 +2,13 @@ CONSTANTS
   Fam = "mac"
   NM = 1
   KindSet = {"f1", "f2", "fv", "f1v"}
-  MaxBody = 5
+  MaxBody = 3
   MaxInv = 6
-  BodyAlpha = {"x", "y", "V", "##", "a", "1", "(", "#x", "f"}
-  InvAlpha = {"f", "a", "1", "(", ")", ","}
-  VarWs = FALSE
+  BodyAlpha = {"#x", "#y", "#V", "x", "a"}
+  InvAlpha = {"f", "a", "(", ")", ",", "S1", "S2", "C1", "C2"}
+  VarWs = TRUE
   InvHead = TRUE
+  InvBal = TRUE
   NameScheme = 1
   MaxLines = 1
   MaxNest = 1
